@@ -94,7 +94,7 @@ func (a *Access) Self() tla.Value { return a.iface.Self() }
 
 // Global / SetGlobal access another global variable of the spec state inside the same attempt
 // (rolled back with it on abort).
-func (a *Access) Global(name string) tla.Value     { return a.res.p.sys.State.Get(name) }
+func (a *Access) Global(name string) tla.Value       { return a.res.p.sys.State.Get(name) }
 func (a *Access) SetGlobal(name string, v tla.Value) { a.res.p.sys.State.Set(name, v) }
 
 // Pick resolves `with (x \in S)` inside a macro: the candidates are sorted canonically
